@@ -91,7 +91,8 @@ struct St_exec {
     }
     // wrong length: must be refused with std::invalid_argument, without reading past the end
     size_t n = sz;
-    if (fault == 1) { size_t cut = 1 + (size_t)(k % 12); if (cut >= sz) cut = sz > 1 ? sz - 1 : 0; if (cut == 0) { r.skipped(); return; } n = sz - cut; }          // truncated
+    if (fault == 1 && (k & 16)) { if (sz < 2) { r.skipped(); return; } n = 1 + (size_t)(seed % (sz - 1)); r.count("probe.deserialize_any_prefix"); }                  // truncated anywhere: every prefix of the buffer, also inside the member list of a sibling group
+    else if (fault == 1) { size_t cut = 1 + (size_t)(k % 12); if (cut >= sz) cut = sz > 1 ? sz - 1 : 0; if (cut == 0) { r.skipped(); return; } n = sz - cut; }          // truncated near the end
     else if (fault == 2) n = sz + 1 + (size_t)(k % 12);                                                                                             // extended
     else { static const size_t special[] = {sizeof(VH), sizeof(FV), sizeof(VH) + sizeof(FV), 2 * sizeof(VH)}; size_t cut = special[k % 4]; if (cut >= sz) { r.skipped(); return; } n = sz - cut; }  // cut inside a field
     std::unique_ptr<char[]> fb(new char[n]);
